@@ -330,6 +330,10 @@ func newAggrQuantileFunc(args []Expression) (AggrFunction, error) {
 	if percent < 0.0 {
 		return nil, NewExecuteError(args[1].GetPos(), "quantile function second parameter type should not be negative")
 	}
+	if percent != percent {
+		// NaN passes both range checks above
+		return nil, NewExecuteError(args[1].GetPos(), "quantile function second parameter type should be a number between 0 and 1")
+	}
 	stream := quantile.NewTargeted(map[float64]float64{
 		percent: 0.0001,
 	})
